@@ -81,6 +81,11 @@ def __plugin_order(plugin: 'Plugin') -> int:
         if not isinstance(order, (int, float)):
             # the values are compared with each other when the plugins are sorted
             raise TypeError("order of plugin is not a number: %r" % (order,))
+        # a plain number: a subclass brings its own comparison, and nan compares false with everything, which leaves
+        # the other plugins unsorted
+        order = float(order)
+        if order != order:
+            raise ValueError("order of plugin is not a number: nan")
         return order
     except Exception as e:
         # a plugin that cannot tell us its order still gets loaded, it just gets the default order
